@@ -95,9 +95,9 @@ def plan(ctx):
     if ctx.thorough:
         return ([("merge", i) for i in range(4000)] + [("mergeL", i) for i in range(4000)]
                 + [("single", i) for i in range(400)] + [("refuse", i) for i in range(160)]
-                + [("e2e", i) for i in range(4800)])
+                + [("e2e", i) for i in range(4800)] + [("plot", i) for i in range(600)])
     return ([("merge", i) for i in range(320)] + [("single", i) for i in range(30)] + [("refuse", i) for i in range(16)]
-            + [("e2e", i) for i in range(480) if i % 8 in E2E_QUICK])
+            + [("e2e", i) for i in range(480) if i % 8 in E2E_QUICK] + [("plot", i) for i in range(60)])
 
 
 # ------------------------------------------------------------------------------------------------
@@ -685,6 +685,137 @@ def run_e2e(ctx, g, rng):
                    tags=dict(form=form, layout=layout, what="likelihood:" + path_name))
 
 
+# ------------------------------------------------------------------------------------------------
+# plotting: offsets removed from the data points must be those of each point's OWN survey
+
+
+def _errorbar_points(ax, which):
+    conts = [c for c in ax.containers if type(c).__name__ == "ErrorbarContainer"]
+    c = conts[which]
+    x = np.asarray(c.lines[0].get_xdata(), dtype="f8")
+    y = np.asarray(c.lines[0].get_ydata(), dtype="f8")
+    err = None
+    if len(c.lines) > 2 and c.lines[2]:
+        segs = c.lines[2][0].get_segments()
+        err = np.array([(sg[1][1] - sg[0][1]) / 2.0 for sg in segs], dtype="f8")
+    return x, y, err
+
+
+def run_plot(ctx, g, rng):
+    """plot_phase_fold / plot_rv_curves subtract per-survey offsets from the data points they draw: every point must
+    lose the offset of the survey it came from (key -> column rule as in the design matrix), and only that"""
+    import matplotlib
+    matplotlib.use("Agg")
+    import matplotlib.pyplot as plt
+    import astropy.units as u
+    from astropy.time import Time
+    from thejoker import JokerSamples
+    from thejoker.plot import plot_phase_fold, plot_rv_curves
+    rel = "plot offsets=Data.merge labels"
+    c = gen_sources(rng, False, mixed_units=False, nmax=6)
+    if rng.random() < 0.45:      # integer keys that LOOK like column numbers: 1..n, 0..n-1 shifted, numpy integers
+        c["form"] = "dict_int"
+        base = int(rng.choice([1, 1, 1, 2, 0]))
+        ks = [base + i for i in range(c["nsurv"])]
+        ks = [ks[i] for i in rng.permutation(len(ks))]
+        c["keys"] = [np.int64(k) for k in ks] if rng.random() < 0.4 else ks
+    nsurv, q = c["nsurv"], c["nsurv"] - 1
+    p = c["p"]
+    du = u.Unit(c["srcs"][0]["unit"])
+    f = FAC[c["srcs"][0]["unit"]]
+    data = build_data(c)
+    # key -> column rule: list = position; dict = sorted keys (smallest key is the reference)
+    order = list(range(nsurv)) if c["form"] == "list" else [c["keys"].index(k) for k in key_sort(c["keys"])]
+    col_of_src = {src: j for j, src in enumerate(order)}          # 0 = reference, j >= 1 -> dv0_j
+    which = str(rng.choice(["phase_fold", "phase_fold", "rv_curves"]))
+    nrows = 1 if which == "phase_fold" else int(rng.integers(2, 5))
+    tmin = min(float(np.min(src_bmjd(c, s_))) for s_ in range(nsurv))
+    smp = JokerSamples(t_ref=Time(tmin, format="mjd", scale="tcb"), poly_trend=p, n_offsets=q)
+    smp["P"] = rng.uniform(3, 40, nrows) * u.day
+    smp["e"] = rng.uniform(0, 0.6, nrows) * u.one
+    smp["omega"] = rng.uniform(0, 6.28, nrows) * u.rad
+    smp["M0"] = rng.uniform(0, 6.28, nrows) * u.rad
+    smp["s"] = np.zeros(nrows) * du
+    smp["K"] = rng.uniform(1, 5, nrows) * f * du
+    vv = [rng.uniform(-3, 3, nrows) * f * (0.01 ** l) for l in range(p)]
+    for l in range(p):
+        smp[f"v{l}"] = vv[l] * du / u.day ** l
+    ou = u.Unit(str(rng.choice(list(FAC))))
+    offs = {}
+    for j in range(1, q + 1):      # recognisable and large against the scatter of the velocities inside one survey
+        offs[j] = (37.0 * j * (-1) ** j + rng.uniform(-1, 1, nrows)) * f      # in the data unit
+        smp[f"dv0_{j}"] = (offs[j] * du).to(ou)
+    t_all, rv_all, err_all, src_all = [], [], [], []
+    for s_, sv in enumerate(c["srcs"]):
+        tt = src_bmjd(c, s_)
+        t_all += list(tt); rv_all += list(sv["R"] * f); err_all += list(sv["E"] * f); src_all += [s_] * len(tt)
+    t_all, rv_all, err_all = np.array(t_all), np.array(rv_all), np.array(err_all)
+    inp = dict(case_input(c), plot=which, sample_rows=nrows, offsets_unit=str(ou),
+               offsets_in_data_unit={f"dv0_{j}": list(v) for j, v in offs.items()})
+    ctx.count(f"plot:{which}"); ctx.count(f"plot:form:{c['form']}")
+    if c["form"] == "dict_int" and sorted(int(k) for k in c["keys"]) == list(range(1, nsurv + 1)):
+        ctx.count("plot:dict keys 1..n")
+    fig, ax = plt.subplots()
+    try:
+        try:
+            if which == "phase_fold":
+                rt = bool(rng.random() < 0.5)
+                inp["remove_trend"] = rt
+                plot_phase_fold(smp, data=data, ax=ax, remove_trend=rt, residual=False, show_s_errorbar=False)
+                x, y, err = _errorbar_points(ax, 0)
+                t0 = smp.get_t0()
+                Pd = float(smp["P"][0].to_value(u.day))
+                want_x = ((Time(t_all, format="mjd", scale="tcb") - t0).tcb.jd / Pd) % 1
+                trend = sum(vv[l][0] * (t_all - tmin) ** l for l in range(p)) if rt else 0.0
+                own = np.array([0.0 if col_of_src[s_] == 0 else offs[col_of_src[s_]][0] for s_ in src_all])
+                want_y, want_err = rv_all - trend - own, err_all
+            else:
+                plot_rv_curves(smp, data=data, ax=ax, rv_unit=du, apply_mean_v0_offset=True)
+                x, y, err = _errorbar_points(ax, 0)
+                want_x = t_all
+                own = np.array([0.0 if col_of_src[s_] == 0 else float(np.mean(offs[col_of_src[s_]])) for s_ in src_all])
+                var = np.array([0.0 if col_of_src[s_] == 0 else float(np.var(offs[col_of_src[s_]])) for s_ in src_all])
+                want_y, want_err = rv_all - own, np.sqrt(err_all ** 2 + var)
+        except Exception as e:   # noqa: BLE001
+            ctx.evaluated(rel, None)
+            report(ctx, rel, g, inp, f"{type(e).__name__}: {str(e)[:200]}", None,
+                   "plotting valid multi-survey data with a sample must not raise", dict(plot=which, form=c["form"], what="exception"))
+            return
+    finally:
+        plt.close(fig)
+    ctx.evaluated(rel, (g["kind"], g["index"]))
+    scale = float(np.max(np.abs(rv_all))) + 1.0
+    got = sorted(zip(np.round(np.asarray(x, dtype="f8"), 7), y, err if err is not None else np.zeros(len(y))))
+    want = sorted(zip(np.round(want_x, 7), want_y, want_err))
+    why = None
+    if len(got) != len(want):
+        why = f"{len(got)} points drawn for {len(want)} observations"
+    else:
+        # ties in x (identical epochs): compare the y multiset inside each tie group
+        i = 0
+        while i < len(want) and why is None:
+            j = i
+            while j < len(want) and want[j][0] == want[i][0]:
+                j += 1
+            gy = sorted(v[1] for v in got[i:j]); wy = sorted(v[1] for v in want[i:j])
+            ge = sorted(v[2] for v in got[i:j]); we = sorted(v[2] for v in want[i:j])
+            if any(abs(got[k][0] - want[k][0]) > 2e-7 for k in range(i, j)):
+                why = f"abscissa {got[i][0]!r} drawn where {want[i][0]!r} is expected"
+            elif any(abs(a - b) > 1e-9 * scale for a, b in zip(gy, wy)):
+                k = int(np.argmax([abs(a - b) for a, b in zip(gy, wy)]))
+                why = (f"the point at x={want[i][0]!r} is drawn at y={gy[k]!r}; its velocity minus the offset of its OWN survey "
+                       f"{'(and the trend) ' if which == 'phase_fold' and inp.get('remove_trend') else ''}is {wy[k]!r} "
+                       f"(difference {gy[k] - wy[k]:.6g} {du})")
+            elif err is not None and any(abs(a - b) > 1e-9 * scale for a, b in zip(ge, we)):
+                why = f"error bar at x={want[i][0]!r}: {ge} vs {we}"
+            i = j
+    if why:
+        report(ctx, rel, g, inp, dict(x=list(x), y=list(y)), dict(x=list(want_x), y=list(want_y)),
+               "every plotted data point has the offset of its own survey removed (reference survey: none): " + why,
+               dict(plot=which, form=c["form"], what="offset"))
+
+
+
 def run_case(ctx, g):
     kind, index = g["kind"], g["index"]
     ctx.seed = g.get("seed", ctx.seed)
@@ -697,6 +828,8 @@ def run_case(ctx, g):
         run_refuse(ctx, g, rng)
     elif kind == "e2e":
         run_e2e(ctx, g, rng)
+    elif kind == "plot":
+        run_plot(ctx, g, rng)
 
 
 def post(ctx):
@@ -718,6 +851,10 @@ def post(ctx):
         ctx.require(f"layout {lay}", c[f"layout:{lay}"], 20 * q)
     ctx.require("mixed units", c["units:mixed"], 50 * q)
     ctx.require("more than 16 merged rows", c["rows>16"], 40 * q)
+    ctx.require("plot_phase_fold cases", c["plot:phase_fold"], 25 * q)
+    ctx.require("plot_rv_curves cases", c["plot:rv_curves"], 10 * q)
+    ctx.require("plots of dict data with string keys", c["plot:form:dict_str"], 8 * q)
+    ctx.require("plots of dict data with integer keys 1..n", c["plot:dict keys 1..n"], 2 * q)
     ctx.require("single-source cases", c["single:default"] + c["single:explicit"] + c["single:disabled"], 20)
     ctx.require("refused inputs", sum(v for k, v in c.items() if k.startswith("refuse:")), 10)
     ctx.require("end-to-end likelihood cases sensitive to the labelling", c["e2e:sensitive"], 100 * q)
